@@ -8,7 +8,17 @@
      NRenameSelf      rename of a regular file onto its own path
      NRenameDir       rename whose source is a directory
      NStaleHandle     use of a handle whose opening path no longer names its inode
-     NRecreate        creation of a file where a file was unlinked / renamed away since the last crash
+     NRecreate        since the last crash:
+                        (a) creation of a file at a name a file left (unlink / rename) while it had unsynced
+                            data, or
+                        (b) while that removal is unflushed (no sync_dir of the parent - of one of the two
+                            parents for a rename) and the file that left has non-empty durable data, or
+                        (c) a data sync (sync_all / sync_data / coin) of a file created at a name whose removal
+                            is unflushed, or
+                        (d) creation with truncation (open with truncate, fs::write) at the old or new name of
+                            an unflushed clean rename, or a later data operation on a file created there
+                      (any creation at a name a file left since the last crash is FsSafe.KRecreate, which the
+                      theorems exclude)
      NKindSwap        an entry of one kind created where an entry of the other kind was removed since the last crash
      NRenameFile      a successful rename f -> t (f <> t) of a regular file that
                         (a) has unsynced data (write / set_len / truncate since its last data sync), or
@@ -48,15 +58,33 @@ Record ghost := mkGhost {
   gpren : list (N * path * path);  (* (inode, old, new): clean renames not yet flushed *)
   ghalf : bool;                    (* a cross-directory rename was flushed on the new parent's side only *)
   gstale : list path;              (* old names left marked durable by such a flush (survives crashes) *)
-  gdirty : list N                  (* inodes with a write / set_len / truncation since their last data sync *)
+  gdirty : list N;                 (* inodes with a write / set_len / truncation since their last data sync *)
+  gleft : list path;               (* names a file left (unlink / rename) while it had unsynced data *)
+  gunfl : list (path * N * option path);   (* name a file left, its inode, other parent of a rename: removal unflushed *)
+  grecr : list (path * N);         (* such a name, inode of the file created there meanwhile *)
+  grren : list (path * N)          (* name of an unflushed rename, inode of a file created there meanwhile *)
 }.
 
 Definition ghost0 : ghost :=
-  {| ggone := []; ggdirs := []; grt := []; gpren := []; ghalf := false; gstale := []; gdirty := [] |}.
+  {| ggone := []; ggdirs := []; grt := []; gpren := []; ghalf := false; gstale := []; gdirty := [];
+     gleft := []; gunfl := []; grecr := []; grren := [] |}.
 
 Definition mem_ino (i : N) (l : list N) : bool := existsb (N.eqb i) l.
 Definition in_pren (i : N) (l : list (N * path * path)) : bool := existsb (fun r => fst (fst r) =? i) l.
 Definition kwhen (b : bool) (k : known) : list known := if b then [k] else [].
+
+Definition is_nil {A} (l : list A) : bool := match l with [] => true | _ => false end.
+Definition in_unfl (gh : ghost) (p : path) : bool := existsb (fun u => path_eqb (fst (fst u)) p) (gunfl gh).
+(* a file created at p now would show bytes of the file that left p *)
+Definition leaves_bytes (d : dworld) (gh : ghost) (p : path) : bool :=
+  mem_path p (gleft gh)
+  || match find (fun u => path_eqb (fst (fst u)) p) (gunfl gh) with
+     | Some u => negb (is_nil (iget (ddata d) (snd (fst u))))
+     | None => false
+     end.
+Definition under_rename (gh : ghost) (p : path) : bool :=
+  existsb (fun r => let '(i, f, g) := r in path_eqb p f || path_eqb p g) (gpren gh).
+Definition has_ino (i : N) (l : list (path * N)) : bool := existsb (fun e => snd e =? i) l.
 
 (* the inode reached the disk at least once *)
 Definition persisted (d : dworld) (i : N) : bool :=
@@ -86,6 +114,20 @@ Definition touched (t : sworld) (o : op) : option N :=
   | _ => None
   end.
 
+(* the inode this step data-syncs *)
+Definition synced_ino (t : sworld) (o : op) : option N :=
+  match o with
+  | SyncAll slot | SyncData slot => match sget (shs t) slot with Some h => Some (sino h) | None => None end
+  | WriteAt slot _ _ coin | Write slot _ coin | SetLen slot _ coin =>
+      match sget (shs t) slot with Some h => if coin && sw h then Some (sino h) else None | None => None end
+  | Spit p data coin =>
+      match nget (names t) p with
+      | Some (EFile i) => if coin && negb (is_nil data) then Some i else None
+      | _ => None
+      end
+  | _ => None
+  end.
+
 Definition kclasses (d : dworld) (gh : ghost) (o : op) : list known :=
   let t := dw d in
   match o with
@@ -104,18 +146,22 @@ Definition kclasses (d : dworld) (gh : ghost) (o : op) : list known :=
                    | SetLen slot _ _ | SyncAll slot | SyncData slot | FLen slot => stale t slot
                    | _ => false end) NStaleHandle
          ++ match o with
-            | Open _ p _ _ _ _ c n =>
+            | Open _ p r w a tr c n =>
                 let fresh := match nget (names t) p with None => c || n | _ => false end in
-                kwhen (fresh && mem_path p (ggone gh)) NRecreate
+                kwhen (fresh && leaves_bytes d gh p) NRecreate
+                ++ kwhen (fresh && under_rename gh p && tr && w && valid_open r w a tr c n) NRecreate
                 ++ kwhen (fresh && mem_path p (ggdirs gh)) NKindSwap
                 ++ kwhen (fresh && mem_path p (gstale gh)) NRenameCrossDir
-            | Spit p _ _ =>
+            | Spit p data coin =>
                 let fresh := match nget (names t) p with None => true | _ => false end in
-                kwhen (fresh && mem_path p (ggone gh)) NRecreate
+                kwhen (fresh && (leaves_bytes d gh p || under_rename gh p)) NRecreate
+                ++ kwhen (fresh && in_unfl gh p && negb (is_nil data) && coin) NRecreate
                 ++ kwhen (fresh && mem_path p (ggdirs gh)) NKindSwap
                 ++ kwhen (fresh && mem_path p (gstale gh)) NRenameCrossDir
             | _ => []
             end
+         ++ kwhen (match synced_ino t o with Some i => has_ino i (grecr gh) | None => false end) NRecreate
+         ++ kwhen (match touched t o with Some i => has_ino i (grren gh) | None => false end) NRecreate
          ++ kwhen (match touched t o with Some i => in_pren i (gpren gh) | None => false end) NRenameFile
          ++ kwhen (match o with
                    | SyncAll slot | SyncData slot =>
@@ -218,12 +264,68 @@ Definition dirty_after (d d' : dworld) (l : list N) (o : op) (x : out) : list N 
   | _ => l
   end.
 
-Definition kupdate (d d' : dworld) (gh : ghost) (o : op) (x : out) : ghost :=
+Definition has_key (p : path) (l : list (path * N)) : bool := existsb (fun e => path_eqb (fst e) p) l.
+
+(* the re-creation ghosts after the step *)
+Definition recr_after (d d' : dworld) (gh : ghost) (o : op) : list path * list (path * N * option path) * list (path * N) * list (path * N) :=
+  let t := dw d in let t' := dw d' in
+  let same := (gleft gh, gunfl gh, grecr gh, grren gh) in
+  let left_file p i :=
+    ((if mem_ino i (gdirty gh) then p :: gleft gh else gleft gh),
+     filter (fun u => negb (path_eqb (fst (fst u)) p)) (gunfl gh),
+     filter (fun e => negb (path_eqb (fst e) p)) (grecr gh)) in
+  let created p :=
+    match nget (names t') p with
+    | Some (EFile j) =>
+        (gleft gh, gunfl gh,
+         (if in_unfl gh p && negb (has_key p (grecr gh)) then (p, j) :: grecr gh else grecr gh),
+         (if under_rename gh p && negb (has_key p (grren gh)) && negb (in_pren j (gpren gh)) then (p, j) :: grren gh else grren gh))
+    | _ => same
+    end in
+  match o with
+  | Crash _ => ([], [], [], [])
+  | SyncDir p =>
+      match nget (names t) p with
+      | Some EDir =>
+          let hit r := let '(i, f, g) := r in child_of f p || child_of g p in
+          let flushed := filter hit (gpren gh) in
+          let gone_u (u : path * N * option path) :=
+            child_of (fst (fst u)) p || match snd u with Some q => path_eqb q p | None => false end in
+          (gleft gh,
+           filter (fun u => negb (gone_u u)) (gunfl gh),
+           filter (fun e => negb (existsb (fun u => gone_u u && path_eqb (fst (fst u)) (fst e)) (gunfl gh))) (grecr gh),
+           filter (fun e => negb (existsb (fun r => let '(i, f, g) := r in path_eqb (fst e) f || path_eqb (fst e) g) flushed))
+                  (grren gh))
+      | _ => same
+      end
+  | Rename f g =>
+      match nget (names t) f with
+      | Some (EFile i) =>
+          if rename_ok t f g then
+            let '(l, u, r) := left_file f i in (l, (f, i, parent g) :: u, r, grren gh)
+          else same
+      | _ => same
+      end
+  | Unlink p =>
+      match nget (names t) p with
+      | Some (EFile i) => let '(l, u, r) := left_file p i in (l, (p, i, None) :: u, r, grren gh)
+      | _ => same
+      end
+  | Open _ p _ _ _ _ _ _ | Spit p _ _ => created p
+  | _ => same
+  end.
+
+Definition with_recr (g0 : ghost) (x : list path * list (path * N * option path) * list (path * N) * list (path * N)) : ghost :=
+  let '(l, u, r, rr) := x in
+  {| ggone := ggone g0; ggdirs := ggdirs g0; grt := grt g0; gpren := gpren g0; ghalf := ghalf g0; gstale := gstale g0;
+     gdirty := gdirty g0; gleft := l; gunfl := u; grecr := r; grren := rr |}.
+
+Definition kupdate0 (d d' : dworld) (gh : ghost) (o : op) (x : out) : ghost :=
   let t := dw d in
   let dirty' := dirty_after d d' (gdirty gh) o x in
   match o with
   | Crash _ =>
-      {| ggone := []; ggdirs := []; grt := []; gpren := []; ghalf := false; gstale := gstale gh; gdirty := [] |}
+      {| ggone := []; ggdirs := []; grt := []; gpren := []; ghalf := false; gstale := gstale gh; gdirty := []; gleft := gleft gh; gunfl := gunfl gh; grecr := grecr gh; grren := grren gh |}
   | SyncDir p =>
       match nget (names t) p with
       | Some EDir =>
@@ -237,9 +339,9 @@ Definition kupdate (d d' : dworld) (gh : ghost) (o : op) (x : out) : ghost :=
              ghalf := ghalf gh || existsb (fun r => cross r && negb (src_durable r)
                                                    && persisted d (fst (fst r))) flushed;
              gstale := map (fun r => snd (fst r)) (filter (fun r => cross r && src_durable r) flushed) ++ gstale gh;
-             gdirty := dirty' |}
+             gdirty := dirty'; gleft := gleft gh; gunfl := gunfl gh; grecr := grecr gh; grren := grren gh |}
       | _ => {| ggone := ggone gh; ggdirs := ggdirs gh; grt := grt gh; gpren := gpren gh; ghalf := ghalf gh;
-                gstale := gstale gh; gdirty := dirty' |}
+                gstale := gstale gh; gdirty := dirty'; gleft := gleft gh; gunfl := gunfl gh; grecr := grecr gh; grren := grren gh |}
       end
   | Rename f g =>
       match nget (names t) f with
@@ -247,31 +349,34 @@ Definition kupdate (d d' : dworld) (gh : ghost) (o : op) (x : out) : ghost :=
           {| ggone := if rename_ok t f g then f :: ggone gh else ggone gh; ggdirs := ggdirs gh;
              grt := if rename_ok t f g then g :: grt gh else grt gh;
              gpren := if clean_rename d gh o then gpren gh ++ [(i, f, g)] else gpren gh;
-             ghalf := ghalf gh; gstale := gstale gh; gdirty := dirty' |}
+             ghalf := ghalf gh; gstale := gstale gh; gdirty := dirty'; gleft := gleft gh; gunfl := gunfl gh; grecr := grecr gh; grren := grren gh |}
       | _ => {| ggone := ggone gh; ggdirs := ggdirs gh; grt := grt gh; gpren := gpren gh; ghalf := ghalf gh;
-                gstale := gstale gh; gdirty := dirty' |}
+                gstale := gstale gh; gdirty := dirty'; gleft := gleft gh; gunfl := gunfl gh; grecr := grecr gh; grren := grren gh |}
       end
   | Unlink p =>
       {| ggone := match nget (names t) p with Some (EFile _) => p :: ggone gh | _ => ggone gh end;
          ggdirs := ggdirs gh; grt := grt gh; gpren := gpren gh; ghalf := ghalf gh; gstale := gstale gh;
-         gdirty := dirty' |}
+         gdirty := dirty'; gleft := gleft gh; gunfl := gunfl gh; grecr := grecr gh; grren := grren gh |}
   | Rmdir p =>
       {| ggone := ggone gh;
          ggdirs := match nget (names t) p with Some EDir => p :: ggdirs gh | _ => ggdirs gh end;
-         grt := grt gh; gpren := gpren gh; ghalf := ghalf gh; gstale := gstale gh; gdirty := dirty' |}
+         grt := grt gh; gpren := gpren gh; ghalf := ghalf gh; gstale := gstale gh; gdirty := dirty'; gleft := gleft gh; gunfl := gunfl gh; grecr := grecr gh; grren := grren gh |}
   | RmdirAll p =>
       match nget (names t) p with
       | Some EDir =>
           let below := filter (fun x => is_prefix p (fst x)) (names t) in
           {| ggone := map fst (filter (fun x => match snd x with EFile _ => true | EDir => false end) below) ++ ggone gh;
              ggdirs := p :: map fst (filter (fun x => match snd x with EDir => true | _ => false end) below) ++ ggdirs gh;
-             grt := grt gh; gpren := gpren gh; ghalf := ghalf gh; gstale := gstale gh; gdirty := dirty' |}
+             grt := grt gh; gpren := gpren gh; ghalf := ghalf gh; gstale := gstale gh; gdirty := dirty'; gleft := gleft gh; gunfl := gunfl gh; grecr := grecr gh; grren := grren gh |}
       | _ => {| ggone := ggone gh; ggdirs := ggdirs gh; grt := grt gh; gpren := gpren gh; ghalf := ghalf gh;
-                gstale := gstale gh; gdirty := dirty' |}
+                gstale := gstale gh; gdirty := dirty'; gleft := gleft gh; gunfl := gunfl gh; grecr := grecr gh; grren := grren gh |}
       end
   | _ => {| ggone := ggone gh; ggdirs := ggdirs gh; grt := grt gh; gpren := gpren gh; ghalf := ghalf gh;
-            gstale := gstale gh; gdirty := dirty' |}
+            gstale := gstale gh; gdirty := dirty'; gleft := gleft gh; gunfl := gunfl gh; grecr := grecr gh; grren := grren gh |}
   end.
+
+Definition kupdate (d d' : dworld) (gh : ghost) (o : op) (x : out) : ghost :=
+  with_recr (kupdate0 d d' gh o x) (recr_after d d' gh o).
 
 (* all known classes met by a history *)
 Fixpoint known_from (d : dworld) (gh : ghost) (l : list op) : list known :=
